@@ -2,7 +2,7 @@
    Only statements.  Model: Async/Conn.v.  Proved: the epilogue clause and the reuse clause (Request::close).  The one-call clause over the
    whole loop is decided by the correspondence check + oracle (it is the clause that exposed and now guards
    against finding F3) until its proof completes. *)
-From FV Require Import Base.Bytes Gen.Generated Codec.Header Codec.Bodies Parser.ReqModel Parser.StreamModel Async.Conn Async.ConnWrites Async.ConnLoop Codec.Varint Codec.NV Codec.Vars Parser.ReqWire Parser.ReqTargets Async.ConnTotal Async.ConnReads Async.LoopTargets Async.LoopProofs Async.PeerTargets4 Async.PeerProofs4 Async.LogTargets Async.LogProofs.
+From FV Require Import Base.Bytes Gen.Generated Codec.Header Codec.Bodies Parser.ReqModel Parser.StreamModel Async.Conn Async.ConnWrites Async.ConnLoop Codec.Varint Codec.NV Codec.Vars Parser.ReqWire Parser.ReqTargets Async.ConnTotal Async.ConnReads Async.LoopTargets Async.LoopProofs Async.PeerTargets4 Async.PeerProofs4 Async.LogTargets Async.LogProofs Parser.AbsStream Parser.StreamSpec Parser.StreamFinal Parser.EnvCanon Async.ReadsWTargets Async.PeerTargets Async.PeerTargets2 Async.PeerTargets3 Async.BodyTargets Async.BodyReadsTargets Async.BodyReadsProofs.
 
 (* Request::close, whenever it ends without an I/O error (reuse, or ConnectionReset because KeepConn was
    not set): after skipping to a record boundary WITHOUT writing anything, it writes exactly the pending
@@ -135,7 +135,7 @@ Theorem C07_one_handler_call_per_request :
           rlock := false;
           raborted := false
         |} in
-      let env := EnvCanon.canon_env (r_env rq) in
+      let env := canon_env (r_env rq) in
       let w1 :=
         fold_left (fun (w0 : world) (p0 : list N * list N) => w_ev (w_ev w0 (fst p0)) (snd p0)) env
           (w_ev (w_ev w' [100; epoch w'])
@@ -178,24 +178,23 @@ Proof. exact run_loop_tr_erase. Qed.
    the connection ends early) — on a fault-free transport, for every handler script (abandoned reads included),
    readiness pattern and buffer size *)
 Theorem C07_requests_in_order :
-  forall (norm : bytes -> bytes) (maxc : N) (scripts : list (list N)) (B : N)
-    (cs : list (N * N * PeerTargets3.creq)) (pairss : list (list (bytes * bytes))) 
-    (w0 : world),
+  forall (norm : bytes -> bytes) (maxc : N) (scripts : list (list N)) (B : N) 
+    (cs : list (N * N * creq)) (pairss : list (list (bytes * bytes))) (w0 : world),
   B < SIZE_LIMIT - 8 ->
   scripts_ok true scripts ->
-  segs w0 = PeerTargets3.enc_client cs ->
-  PeerTargets3.client_segs 0 0 cs ->
+  segs w0 = enc_client cs ->
+  client_segs 0 0 cs ->
   wlog w0 = [] ->
   no_fault (wscript w0) ->
   length pairss = length cs ->
-  (forall (i : nat) (c : PeerTargets3.creq) (ps : list (bytes * bytes)),
+  (forall (i : nat) (c : creq) (ps : list (bytes * bytes)),
    nth_error (map snd cs) i = Some c -> nth_error pairss i = Some ps -> creq_fits B c ps) ->
   len (flat (segs w0)) < SIZE_LIMIT ->
   let tr := snd (run_loop_tr norm maxc (nb w0 + 4) (new_parser B) scripts 0 w0 []) in
   exists m : nat,
     tr =
     firstn m
-      (map (fun cp : PeerTargets3.creq * list (bytes * bytes) => sent_request norm (fst cp) (snd cp))
+      (map (fun cp : creq * list (bytes * bytes) => sent_request norm (fst cp) (snd cp))
          (combine (map snd cs) pairss)).
 Proof. exact requests_in_order. Qed.
 
@@ -225,6 +224,43 @@ Theorem C07_connection_log :
   '(_, w', l) := run_loop_log norm maxc fuel p scripts 0 w [] in
    Forall entry_ok l /\ chained (wlog w) l /\ is_prefix (last_log (wlog w) l) (wlog w').
 Proof. exact connection_log. Qed.
+
+(* connection REUSE is invisible to the handler (the 'same as on fresh connections' clause, at the async
+   layer): what handler invocation i of a connection carrying k requests of the one-outstanding client is
+   started with - request, selected stream, nothing delivered - and the content still to come of every input
+   stream equal what the single invocation of a FRESH connection carrying only request i is started with and
+   can read, whatever the transports, scripts and readiness patterns of the two connections *)
+Theorem C07_reuse_is_invisible :
+  forall (norm : bytes -> bytes) (maxc : N) (scripts scripts1 : list (list N)) 
+    (B : N) (cs : list (N * N * creq)) (pairss : list (list (bytes * bytes))) 
+    (w0 w1 : world),
+  B < SIZE_LIMIT - 8 ->
+  scripts_ok true scripts ->
+  scripts_ok true scripts1 ->
+  segs w0 = enc_client cs ->
+  client_segs 0 0 cs ->
+  wlog w0 = [] ->
+  no_fault (wscript w0) ->
+  length pairss = length cs ->
+  (forall (i : nat) (c : creq) (ps : list (bytes * bytes)),
+   nth_error (map snd cs) i = Some c -> nth_error pairss i = Some ps -> creq_fits B c ps) ->
+  len (flat (segs w0)) < SIZE_LIMIT ->
+  forall (i : nat) (c : creq) (ps : list (bytes * bytes)),
+  nth_error (map snd cs) i = Some c ->
+  nth_error pairss i = Some ps ->
+  segs w1 = enc_client (alone c) ->
+  wlog w1 = [] ->
+  no_fault (wscript w1) ->
+  let tr := snd (run_loop_body norm maxc (nb w0 + 4) (new_parser B) scripts 0 w0 []) in
+  let tr1 := snd (run_loop_body norm maxc (nb w1 + 4) (new_parser B) scripts1 0 w1 []) in
+  forall (rq : req) (a : ast) (u : bytes) (rq1 : req) (a1 : ast) (u1 : bytes),
+  nth_error tr i = Some (rq, a, u) ->
+  nth_error tr1 0 = Some (rq1, a1, u1) ->
+  rq = rq1 /\
+  a_stream a = a_stream a1 /\
+  a_parsed a = a_parsed a1 /\
+  (forall sg : N, In sg (role_input_streams (r_role rq)) -> to_come sg a u = to_come sg a1 u1).
+Proof. exact reuse_is_invisible. Qed.
 
 (* non-vacuity of C07_handler_sees_exactly_the_request: a concrete connection (B = 160, a GetValues junk record inside
    the preamble, leftover = 5 bytes, two client segments, Pending reads and writes) satisfies every hypothesis *)
